@@ -249,7 +249,7 @@ fn gen_pair(rng: &mut Rng) -> Pair {
 // ------------------------------------------------------------------------------------------
 // the menu
 
-const N_BASE: usize = 46;
+const N_BASE: usize = 48;
 
 pub fn n_cases() -> usize {
     N_BASE + EXTRA.len()
@@ -331,6 +331,17 @@ static EXTRA: &[(&str, CaseFn)] = wrapper_cases![
     "CString*" => gen_cstring,
     "BinaryHeap<String>*" => |r| gen_heap(r, &gen_string),
     "Vec<u64>" => |r| gen_vec(r, &|r| r.next_u64()),
+    "Option<Option<String>>" => |r| match r.below(3) { 0 => None, 1 => Some(None), _ => Some(Some(gen_string(r))) },
+    "Box<CStr>*" => |r| gen_cstring(r).into_boxed_c_str(),
+    "Box<Path>*" => |r| gen_pathbuf(r).into_boxed_path(),
+    "Vec<u128>" => |r| gen_vec(r, &|r| r.next_u64() as u128),
+    "BinaryHeap<(u8, String)>" => |r| gen_heap(r, &|r| (r.next_u64() as u8, gen_string(r))),
+    "Result<Option<String>, Box<str>>" => |r| if r.bool() { Ok::<Option<String>, Box<str>>(if r.bool() { Some(gen_string(r)) } else { None }) } else { Err(gen_string(r).into_boxed_str()) },
+    "(Option<String>, Result<Vec<u8>, String>)" => |r| (if r.bool() { Some(gen_string(r)) } else { None }, if r.bool() { Ok::<Vec<u8>, String>(gen_bytes(r)) } else { Err(gen_string(r)) }),
+    "Box<Box<String>>" => |r| Box::new(Box::new(gen_string(r))),
+    "Mutex<Option<Vec<String>>>" => |r| Mutex::new(if r.bool() { Some(gen_vec(r, &gen_string)) } else { None }),
+    "RangeInclusive<String>*" => |r| gen_string(r)..=gen_string(r),
+    "[Option<String>; 2]" => |r| [if r.bool() { Some(gen_string(r)) } else { None }, Some(gen_string(r))],
     "Option<Wrapping<(String, Option<Box<[u16]>>)>>" => |r| if r.chance(1, 5) { None } else { Some(Wrapping((gen_string(r), if r.bool() { Some(gen_vec(r, &|r| r.next_u64() as u16).into_boxed_slice()) } else { None }))) },
 ];
 
@@ -381,6 +392,8 @@ const CASE_NAMES: [&str; N_BASE] = [
     "(&Vec<u8>, String)",
     "Vec<PathBuf>",
     "Option<Box<(OsString, CString)>>",
+    "HashMap<String, Vec<u8>>",
+    "HashSet<Vec<u8>>",
 ];
 
 /// Executes one case: builds a value by a seeded history, checking conservation after each step.
@@ -643,6 +656,40 @@ pub fn run_case(case: usize, seed: u64) -> CaseOut {
         45 => {
             let v = if rng.chance(1, 5) { None } else { Some(Box::new((gen_osstring(rng), gen_cstring(rng)))) };
             p.exact(&v, (v.is_some() as usize, 0));
+        }
+        46 => {
+            let mut v: HashMap<String, Vec<u8>> = if rng.bool() { HashMap::new() } else { HashMap::with_capacity(rng.below(40) as usize) };
+            for _ in 0..steps + 2 {
+                match rng.below(6) {
+                    0..=2 => {
+                        v.insert(gen_string(rng), gen_bytes(rng));
+                    }
+                    3 => {
+                        let k = v.keys().next().cloned();
+                        if let Some(k) = k {
+                            v.remove(&k);
+                        }
+                    }
+                    4 => v.reserve(rng.below(30) as usize),
+                    _ => v.shrink_to_fit(),
+                }
+                let lower = v.capacity() * std::mem::size_of::<(String, Vec<u8>)>() + v.iter().map(|(k, x)| k.capacity() + x.capacity()).sum::<usize>();
+                p.bounded(&v, lower, (v.len(), v.capacity()));
+            }
+        }
+        47 => {
+            let mut v: HashSet<Vec<u8>> = if rng.bool() { HashSet::new() } else { HashSet::with_capacity(rng.below(40) as usize) };
+            for _ in 0..steps + 2 {
+                match rng.below(5) {
+                    0..=2 => {
+                        v.insert(gen_bytes(rng));
+                    }
+                    3 => v.reserve(rng.below(30) as usize),
+                    _ => v.shrink_to_fit(),
+                }
+                let lower = v.capacity() * std::mem::size_of::<Vec<u8>>() + v.iter().map(|x| x.capacity()).sum::<usize>();
+                p.bounded(&v, lower, (v.len(), v.capacity()));
+            }
         }
         c => {
             let f = EXTRA[c - N_BASE].1;
